@@ -12,6 +12,11 @@ Local Open Scope N_scope.
 (* what the implementation did in one HandleEvents call: code 0 = returned, 1 = panicked *)
 Record step_obs := mk_step_obs { so_code : N; so_view : view }.
 
+(* one call of TopologyProvider.NetworkTopology(hash): what the URL served, the runner's expected
+   topology of that body, and what the call did (code 0 = topology, 1 = error, 2 = panic) *)
+Record call := mk_call { cl_hash : string; cl_fetch_ok : bool; cl_body : list N; cl_oracle : option topo;
+                         cl_code : N; cl_topo : option topo }.
+
 Inductive case :=
 (* ConnectionGate over a topology: [InterceptPeerDial; InterceptSecured inbound; InterceptSecured
    outbound; InterceptAddrDial; InterceptAccept; InterceptUpgraded] for peer p *)
@@ -23,6 +28,9 @@ Inductive case :=
 (* TopologyProvider.NetworkTopology(hash) directly: code 0 = topology, 1 = error, 2 = panic *)
 | Prov (hash : string) (fetch_ok : bool) (body : bytes) (oracle : option topo)
        (impl_code : N) (impl_topo : option topo)
+(* a history of such calls through ONE provider object: every call is judged on its own (what was
+   fetched or returned earlier does not matter) *)
+| ProvSeq (calls : list call)
 (* three real libp2p hosts (p2p.NewHost: tcp on 127.0.0.1, Noise, the real gate), every gate holding the
    topology [members]: did dialer get a connection to target, and who is the sender of the message
    it then broadcast (the payload names the third host) *)
@@ -87,6 +95,27 @@ Section WithTables.
     end.
 End WithTables.
 
+(* the provider against the model, and the specification of one call: a topology is returned only if
+   it is the one the ciphertext stands for and, when a hash is demanded, the ciphertext has that hash *)
+Definition prov_agree (hash : string) (fetch_ok : bool) (body : bytes) (oracle : option topo)
+           (code : N) (t : option topo) : bool :=
+  let tb := entry_of body oracle in
+  match provider (H_of tb) ident (parse_of tb) hash fetch_ok body with
+  | POk m => N.eqb code 0 && opt_topo_eqb (Some m) t
+  | PErr => N.eqb code 1
+  | PPanic => N.eqb code 2
+  end.
+
+Definition prov_judge (hash : string) (body : bytes) (oracle : option topo) (code : N) (t : option topo) : bool :=
+  let tb := entry_of body oracle in
+  if N.eqb code 0 then
+    match hex_decode (trim_nl body) with
+    | Some ct => (String.eqb hash EmptyString || String.eqb (H_of tb ct) hash)
+                 && match oracle with Some _ => opt_topo_eqb oracle t | None => false end
+    | None => false
+    end
+  else true.
+
 Definition member_bool (peers : list peer) (p : string) : bool := allowed (mk_topo peers 0%Z) p.
 
 Definition verdict_of (c : case) : N :=
@@ -107,22 +136,10 @@ Definition verdict_of (c : case) : N :=
       verdict (view_eqb (view_of probes st0) impl_init && agree_steps tb probes st0 evs impl)
               (judge_steps tb probes impl_init evs impl)
   | Prov hash fetch_ok body oracle code t =>
-      let tb := entry_of body oracle in
-      let r := provider (H_of tb) ident (parse_of tb) hash fetch_ok body in
-      verdict (match r with
-               | POk m => N.eqb code 0 && opt_topo_eqb (Some m) t
-               | PErr => N.eqb code 1
-               | PPanic => N.eqb code 2
-               end)
-              (* a topology is returned only if it is the one the ciphertext stands for and, when a
-                 hash is demanded, the ciphertext has that hash *)
-              (if N.eqb code 0 then
-                 match hex_decode (trim_nl body) with
-                 | Some ct => (String.eqb hash EmptyString || String.eqb (H_of tb ct) hash)
-                              && match oracle with Some _ => opt_topo_eqb oracle t | None => false end
-                 | None => false
-                 end
-               else true)
+      verdict (prov_agree hash fetch_ok body oracle code t) (prov_judge hash body oracle code t)
+  | ProvSeq calls =>
+      verdict (forallb (fun c => prov_agree (cl_hash c) (cl_fetch_ok c) (cl_body c) (cl_oracle c) (cl_code c) (cl_topo c)) calls)
+              (forallb (fun c => prov_judge (cl_hash c) (cl_body c) (cl_oracle c) (cl_code c) (cl_topo c)) calls)
   | Hosts members dialer target connected from =>
       let g := mk_topo (map (fun m => mk_peer m None) members) 1%Z in
       let m := intercept_peer_dial g target && intercept_secured g DirOutbound target
@@ -147,6 +164,7 @@ Definition tag (c : case) : N :=
       let panicked := existsb (fun o => N.eqb (so_code o) 1) impl in
       2 + (if changed then 1 else 0) + (if panicked then 2 else 0)
   | Prov _ _ _ _ code _ => 6 + code
+  | ProvSeq calls => 13 + (if existsb (fun c => N.eqb (cl_code c) 0) calls then 1 else 0)
   | Attr _ claimed _ _ => match claimed with Some _ => 10 | None => 9 end
   | Hosts _ _ _ connected _ => if connected then 12 else 11
   end.
